@@ -355,3 +355,99 @@ def private_closure(ctx, fn, concrete=None, limit=12):
                             and (g.module is fn.module or (g.cls is not None and fn.cls is not None and (g.cls in fn.cls.mro() or fn.cls in g.cls.mro()))):
                         todo.append(g)
     return out
+
+
+# ------------------------------------------------------------------ row subsets (positive evidence only)
+_MASK_CALLS = {'logical_and', 'logical_or', 'logical_not', 'logical_xor', 'isnan', 'isfinite', 'isinf', 'isclose', 'isin', 'notna', 'notnull', 'isna', 'isnull',
+               'duplicated', 'between'}
+_ROW_METHODS = {'dropna': 'the rows without missing values', 'head': 'the leading rows', 'tail': 'the trailing rows',
+                'drop_duplicates': 'the distinct rows', 'query': 'the rows matching a query', 'nlargest': 'the largest rows',
+                'nsmallest': 'the smallest rows', 'truncate': 'a truncated range of rows'}
+
+
+def is_row_mask(fnnode, e, depth=4):
+    """Is `e` recognisably a boolean row mask (comparison, mask combinator, isnan-like test, .all/.any(axis=1) of one)?"""
+    if depth < 0:
+        return False
+    if isinstance(e, ast.Name):
+        d = single_def(fnnode, e.id)
+        return isinstance(d, ast.AST) and is_row_mask(fnnode, d, depth - 1)
+    if isinstance(e, ast.Compare):
+        return True
+    if isinstance(e, ast.UnaryOp) and isinstance(e.op, ast.Invert):
+        return is_row_mask(fnnode, e.operand, depth - 1)
+    if isinstance(e, ast.BinOp) and isinstance(e.op, (ast.BitAnd, ast.BitOr, ast.BitXor)):
+        return is_row_mask(fnnode, e.left, depth - 1) and is_row_mask(fnnode, e.right, depth - 1)
+    if isinstance(e, ast.Call) and isinstance(e.func, ast.Attribute):
+        if e.func.attr in _MASK_CALLS:
+            return True
+        if e.func.attr in ('all', 'any') and is_row_mask(fnnode, e.func.value, depth - 1):
+            return True
+    return False
+
+
+def _nontrivial_slice(s):
+    return isinstance(s, ast.Slice) and (s.lower is not None or s.upper is not None or s.step is not None)
+
+
+def row_subset_of(fnnode, e):
+    """(base expression, how) when `e` recognisably selects a subset (or a thinning) of the rows of `base`, else None.
+    Column selections (`X[:, k]`, `X[name]`) and full slices are not row subsets."""
+    if isinstance(e, ast.Subscript):
+        base, s = e.value, e.slice
+        if isinstance(base, ast.Attribute) and base.attr in ('iloc', 'loc'):
+            base = base.value
+        first = s.elts[0] if isinstance(s, ast.Tuple) and s.elts else s
+        if _nontrivial_slice(first):
+            return base, 'a slice of the rows'
+        if is_row_mask(fnnode, first):
+            return base, 'the rows selected by a boolean mask'
+        return None
+    if isinstance(e, ast.Call) and isinstance(e.func, ast.Attribute):
+        m = e.func.attr
+        if m in _ROW_METHODS:
+            return e.func.value, _ROW_METHODS[m]
+        if m in ('unique',) and e.args and any(k.arg == 'axis' for k in e.keywords):
+            return e.args[0], 'the distinct rows'
+        if m in ('compress', 'delete', 'extract') and len(e.args) >= 2:
+            arr = e.args[1] if m in ('compress', 'extract') else e.args[0]
+            return arr, f'numpy.{m} of the rows'
+        if m == 'choice' and e.args and not isinstance(e.args[0], ast.Constant):
+            return e.args[0], 'a random subsample of the rows'
+    return None
+
+
+def row_subsets_reaching(fnnode, names, before=None):
+    """[(stmt, target name, base name, how)] for every statement of the function that re-binds one of `names` (or binds a new name
+    from one of them) to a recognisable row subset.  `before`: only statements that start above this node's line."""
+    out = []
+    names = set(names)
+    grew = True
+    seen = set()
+    while grew:
+        grew = False
+        for st in walk_no_nested(fnnode):
+            if not isinstance(st, ast.Assign) or len(st.targets) != 1 or id(st) in seen:
+                continue
+            if before is not None and st.lineno >= before.lineno:
+                continue
+            pairs = []
+            t = st.targets[0]
+            if isinstance(t, ast.Name):
+                pairs.append((t.id, st.value))
+            elif isinstance(t, (ast.Tuple, ast.List)) and isinstance(st.value, (ast.Tuple, ast.List)) and len(t.elts) == len(st.value.elts):
+                pairs += [(a.id, b) for a, b in zip(t.elts, st.value.elts) if isinstance(a, ast.Name)]
+            for tn, val in pairs:
+                rs = row_subset_of(fnnode, val)
+                if rs is None:
+                    continue
+                base, how = rs
+                while isinstance(base, ast.Call) and isinstance(base.func, ast.Attribute) and base.func.attr in ('copy', 'to_numpy', 'astype') or isinstance(base, ast.Attribute) and base.attr == 'values':
+                    base = base.func.value if isinstance(base, ast.Call) else base.value
+                if isinstance(base, ast.Name) and base.id in names:
+                    seen.add(id(st))
+                    out.append((st, tn, base.id, how))
+                    if tn not in names:
+                        names.add(tn)
+                        grew = True
+    return out
